@@ -69,6 +69,7 @@ type keptInv struct {
 	isBool bool
 	b      bool
 	lo, hi int64
+	le     *IntV // relational candidate: the value stays <= le (a loop-invariant bound taken from the loop's guard)
 }
 
 func (st *State) freeze(v Val) keptInv {
@@ -316,7 +317,20 @@ func (ex *Exec) enter(fr *Frame, st *State, b *ssa.BasicBlock, prev *ssa.BasicBl
 							}
 							st2.refineSym(r.T.Syms[0], lo, hi)
 							fr2.regs[phi] = r
-							fr2.kept[phi] = keptInv{lo: lo, hi: hi}
+							ki := keptInv{lo: lo, hi: hi}
+							// counting up by one under a guard "phi < B" (B fixed in the loop): phi <= B is a candidate
+							// invariant (true at entry if init <= B; each increment happens under phi < B)
+							if k == 1 {
+								if bnd := ex.guardBound(fr2, st2, li, phi); bnd != nil {
+									b64 := st2.Convert(bnd, 64, true)
+									if le, kk := st.Decide("<=", st.Convert(iv, 64, true), b64); kk && le {
+										if st2.Assume("<=", st2.Convert(r, 64, true), b64) {
+											ki.le = b64
+										}
+									}
+								}
+							}
+							fr2.kept[phi] = ki
 							continue
 						}
 					}
@@ -338,6 +352,13 @@ func (ex *Exec) enter(fr *Frame, st *State, b *ssa.BasicBlock, prev *ssa.BasicBl
 			for i, phi := range phis {
 				if kv, ok := fr.kept[phi]; ok && !st.subsumedBy(vals[i], kv) {
 					ex.unsupported("loop invariant of " + fr.fn.Name() + ":" + phi.Name() + " not inductive")
+				} else if ok && kv.le != nil {
+					iv, _ := vals[i].(*IntV)
+					if iv == nil {
+						ex.unsupported("relational loop invariant of " + fr.fn.Name() + ":" + phi.Name() + " not inductive")
+					} else if le, k := st.Decide("<=", st.Convert(iv, 64, true), kv.le); !(k && le) {
+						ex.unsupported("relational loop invariant of " + fr.fn.Name() + ":" + phi.Name() + " not inductive")
+					}
 				}
 			}
 			return nil
@@ -513,6 +534,37 @@ func (ex *Exec) globalObj(st *State, g *ssa.Global) int {
 		} else if v, ok := ex.initGlobal(st, g); ok {
 			st.heap[id] = v
 			ex.constObj[id] = true
+			// the value is never reassigned and (checked by initGlobal) its address never escapes: what it refers to
+			// is constant as well (e.g. the backing array of a package-level message)
+			var mark func(v Val, d int)
+			mark = func(v Val, d int) {
+				if d > 4 {
+					return
+				}
+				switch x := v.(type) {
+				case *SliceV:
+					if !x.Nil && !x.Unk {
+						ex.constObj[x.Obj] = true
+						mark(st.heap[x.Obj], d+1)
+					}
+				case *PtrV:
+					if !x.Nil && !x.Unk {
+						ex.constObj[x.Obj] = true
+						mark(st.heap[x.Obj], d+1)
+					}
+				case *StructV:
+					for _, f := range x.Fields {
+						mark(f, d+1)
+					}
+				case *ArrayV:
+					for _, sg := range x.Segs {
+						for _, e := range sg.Elems {
+							mark(e, d+1)
+						}
+					}
+				}
+			}
+			mark(v, 0)
 		} else {
 			st.heap[id] = ex.topOf(st, g.Type().(*types.Pointer).Elem(), "g:"+g.Name())
 		}
@@ -1223,6 +1275,10 @@ func (ex *Exec) compare(st *State, op token.Token, a, b Val) Val {
 				}
 				return st.nilTest(o, op)
 			}
+			// two package-level sentinel errors (each assigned once, from errors.New / fmt.Errorf): equal iff the same variable
+			if x.Sentinel != "" && y.Sentinel != "" {
+				return &BoolV{Known: true, Val: (x.Sentinel == y.Sentinel) == (op == token.EQL)}
+			}
 			return &BoolV{}
 		}
 	case *FuncV:
@@ -1718,4 +1774,51 @@ func (ex *Exec) copyLoop(fr *Frame, st *State, li *loopInfo, phis []*ssa.Phi, va
 	fr.regs[cmp] = &BoolV{Known: true, Val: false}
 	ex.Stats.CopyLoops++
 	return ex.enter(fr, st, exit, head), true
+}
+
+// guardBound: the loop-invariant value B of a guard "phi < B" that sits in the loop head (B a value defined outside
+// the loop, or len/cap of one). nil when there is no such guard.
+func (ex *Exec) guardBound(fr *Frame, st *State, li *loopInfo, phi *ssa.Phi) *IntV {
+	outside := func(v ssa.Value) bool {
+		switch x := v.(type) {
+		case *ssa.Const, *ssa.Parameter, *ssa.FreeVar:
+			return true
+		case ssa.Instruction:
+			return !li.Body[x.Block()]
+		}
+		return false
+	}
+	for _, in := range li.Head.Instrs {
+		cmp, ok := in.(*ssa.BinOp)
+		if !ok || cmp.Op != token.LSS || cmp.X != ssa.Value(phi) {
+			continue
+		}
+		// the comparison must be the head's branch condition with the true edge staying in the loop
+		iff, ok := li.Head.Instrs[len(li.Head.Instrs)-1].(*ssa.If)
+		if !ok || iff.Cond != ssa.Value(cmp) || !li.Body[li.Head.Succs[0]] {
+			continue
+		}
+		if outside(cmp.Y) {
+			v, _ := ex.eval(fr, st, cmp.Y).(*IntV)
+			return v
+		}
+		if call, ok := cmp.Y.(*ssa.Call); ok {
+			if bi, ok := call.Call.Value.(*ssa.Builtin); ok && (bi.Name() == "len" || bi.Name() == "cap") && len(call.Call.Args) == 1 && outside(call.Call.Args[0]) {
+				switch a := ex.eval(fr, st, call.Call.Args[0]).(type) {
+				case *SliceV:
+					if !a.Unk {
+						if bi.Name() == "cap" {
+							return a.Cap
+						}
+						return a.Len
+					}
+				case *StrV:
+					if a.Len != nil {
+						return a.Len
+					}
+				}
+			}
+		}
+	}
+	return nil
 }
